@@ -1,9 +1,9 @@
 package props
 
 import (
-	"os"
 	"fmt"
 	"go/types"
+	"os"
 	"strings"
 
 	"golang.org/x/tools/go/ssa"
